@@ -242,7 +242,7 @@ def run(ctx):
     st = run_wire(ctx, vh, trace, cases=cf, n=nrand, seed=ctx.seed)
     ctx.log('harness: %d ServeHTTP calls (%d TLC cases, %d random), %d panics' % (st['cases'], len(lines), nrand, st['panics']))
     samples = scan(ctx, trace)
-    ctx.cov['samples'] = [dict(tlc_exported_case=json.loads(lines[0]))] + [dict(recorded_event=v, which=k) for k, v in sorted(samples.items())]
+    ctx.cov['samples'] = [dict(tlc_exported_case=readable(json.loads(lines[0])))] + [dict(recorded_event=v, which=k) for k, v in sorted(samples.items())]
     # 3. TLC judges every recorded response
     vlib.judge_traces(ctx, MODULE, CFG, [trace], shard_lines=max(1500, 2 * st['cases'] // vlib.NCPU + 2), label='ociserver vs OciWire')
     if not quick or os.environ.get('VERIF_CANARY'):
